@@ -119,9 +119,12 @@ def make_config(rng: random.Random):
     band_chunk = rng.choice([1, ns])
     nodata = rng.choice([None, None, 0, 255 if dtype == "uint8" else 100 if dtype == "int8" else 9999 if dtype in ("uint16", "uint32") else -9999])
     bs = rng.choice([[16], [32], [32, 16], [(48, 16), 16], [20], [64, 32], [(32, 64)], None, [64, 16], [128, 16]])  # the last two: few large main tiles, many small overview tiles
-    comp = rng.choice(["deflate", "zstd", "lzw", "none"])
+    comp = rng.choice(["deflate", "zstd", "lzw", "none", "deflate", "zstd", "lzw", "none", "lerc", "lerc_deflate", "lerc_zstd"])
+    # codec settings travel as extra keywords in GDAL style; none of them may change what the pixels decode to
+    comp_kw = rng.choice({"deflate": [None, {"zlevel": 9}, {"level": 3}], "zstd": [None, {"zstd_level": 9}, {"level": 15}], "lzw": [None], "none": [None], "lerc": [None, {"max_z_error": 0}],
+                          "lerc_deflate": [None, {"zlevel": 6}, {"ZLEVEL": 9}], "lerc_zstd": [None, {"zstd_level": 9}, {"max_z_error": 0, "zstd_level": 5}]}[comp])
     cfg = dict(ny=ny, nx=nx, layout=layout, ns=ns, dtype=dtype, chunks=[cy, cx], band_chunk=band_chunk, nodata=nodata, blocksize=bs, compression=comp,
-               predictor=rng.choice([None, None, True, False]) if comp != "none" else rng.choice([None, False]), spill_sz=rng.choice([0, 1 << 10, 1 << 16, None]), writes_per_chunk=rng.choice([None, 1, 2, 3]),
+               predictor=rng.choice([None, None, True, False]) if comp in ("deflate", "zstd", "lzw") else rng.choice([None, False]), comp_kw=comp_kw, spill_sz=rng.choice([0, 1 << 10, 1 << 16, None]), writes_per_chunk=rng.choice([None, 1, 2, 3]),
                stats=rng.choice([True, False, True]), bigtiff=rng.choice([True, True, False]), scheduler=rng.choice(["sync", "sync", "threads"]), workers=rng.choice([2, 4, 8]),
                order_seed=rng.randint(0, 10**6), data_seed=rng.randint(0, 10**6), crs=rng.choice(["EPSG:3857", "EPSG:4326", "EPSG:32633"]), dest=rng.choice(["file", "file", "file", "s3"]), data_kind=rng.choice(["random", "random", "patchy", "constant"]))
     if cfg["dest"] == "s3" and cfg["spill_sz"] == 0:
@@ -163,7 +166,7 @@ def run_config(mon: Monitor, cfg, workdir: str) -> None:
     chunks = {"YX": (cy, cx), "SYX": (cfg["band_chunk"], cy, cx), "YXS": (cy, cx, cfg["band_chunk"])}[layout]  # pixel-interleaved sources may be split along the sample axis too
     attrs = {} if nodata is None else {"nodata": nodata}
     xx = xr.DataArray(da.from_array(data, chunks=chunks), dims=dims, coords=xr_coords(gb), attrs=attrs)
-    kw = dict(compression=cfg["compression"], stats=cfg["stats"], bigtiff=cfg["bigtiff"])
+    kw = dict(compression=cfg["compression"], stats=cfg["stats"], bigtiff=cfg["bigtiff"], **(cfg.get("comp_kw") or {}))
     if cfg["blocksize"] is not None:
         kw["blocksize"] = [tuple(b) if isinstance(b, (list, tuple)) else b for b in cfg["blocksize"]]
     if cfg["predictor"] is not None:
@@ -387,6 +390,9 @@ CONFIG_WATCHDOG_S = 300
 WRITE_BOUND = 2_000_000
 
 PINNED = [
+    # LERC with a secondary codec and that codec's effort keyword (C05-6: the effort must not become LERC's error tolerance)
+    dict(ny=70, nx=100, layout="YX", ns=1, dtype="int16", chunks=[32, 32], band_chunk=1, nodata=None, blocksize=[32], compression="lerc_zstd", comp_kw={"zstd_level": 9}, predictor=None, spill_sz=None, writes_per_chunk=None, stats=True, bigtiff=True, scheduler="sync", workers=2, order_seed=23, data_seed=23, crs="EPSG:3857"),
+    dict(ny=64, nx=48, layout="SYX", ns=2, dtype="float32", chunks=[16, 16], band_chunk=1, nodata=-9999, blocksize=[16], compression="lerc_deflate", comp_kw={"zlevel": 6}, predictor=None, spill_sz=1024, writes_per_chunk=2, stats=False, bigtiff=True, scheduler="threads", workers=4, order_seed=24, data_seed=24, crs="EPSG:4326"),
     # pixel-interleaved source split along the sample axis, spatial chunks equal to the (default) tile (C05-4)
     dict(ny=64, nx=96, layout="YXS", ns=3, dtype="uint8", chunks=[32, 32], band_chunk=1, nodata=None, blocksize=None, compression="deflate", predictor=None, spill_sz=None, writes_per_chunk=None, stats=True, bigtiff=True, scheduler="sync", workers=2, order_seed=21, data_seed=21, crs="EPSG:3857"),
     dict(ny=70, nx=40, layout="YXS", ns=4, dtype="int16", chunks=[16, 16], band_chunk=1, nodata=-9999, blocksize=[16], compression="zstd", predictor=None, spill_sz=1024, writes_per_chunk=2, stats=False, bigtiff=True, scheduler="threads", workers=4, order_seed=22, data_seed=22, crs="EPSG:4326"),
